@@ -1,5 +1,6 @@
 import HC.Proofs.Reopen
 import HC.Proofs.BitfieldPages
+import HC.Proofs.FormatLimits
 /-!
 What the stores hold between flushes.  `Persist` is a ghost-state invariant carried along every live
 history: `hf` is the header written by the last flush, `a0` the abstract log at that flush, `es` the
@@ -10,7 +11,7 @@ oplog store opens to `(hf, es)`.
 -/
 namespace HC.Persist
 open HC HC.Codec HC.Flat HC.Tree HC.RefTree HC.RefProof HC.Offsets HC.TreeStore HC.LogSpec HC.Core HC.Oplog HC.LiveRefine
-  HC.BitfieldPages
+  HC.BitfieldPages HC.OplogBytes HC.FormatLimits
 
 structure Persist (C : Crypto) (c : Core) (d : Disk) (hf : Header) (a0 : Abs) (es : List Entry) (a : Abs) : Prop where
   trace : Trace C a0 es a
@@ -27,6 +28,28 @@ structure Persist (C : Crypto) (c : Core) (d : Disk) (hf : Header) (a0 : Abs) (e
   hdrLen : c.header.tree.length = a.blocks.size
   hdrSig : c.header.tree.signature = [] ∨ c.header.tree.signature.length = 64
   hdrSecret : c.header.secret = c.secret
+  /-- the oplog store abstracts to a log that satisfies the commit protocol's invariant -/
+  oplog : OpInv c.oplog d.oplog.toList hf es
+  shape : HdrShape c.header
+  forkU : U64 c.tree.fork
+
+/-- digests of root lists are 32 bytes -/
+def TreeWF (C : Crypto) : Prop := ∀ l, (C.tree l).length = 32
+
+/-- size limits of a call beyond `Valid`: what the on-disk formats can represent -/
+def Limits (a : Abs) : Op → Prop
+  | .append batch => a.blocks.size + batch.length < 2 ^ 62 ∧ batch.length < 2 ^ 20
+  | .clear _ e => e < 2 ^ 64
+  | _ => True
+
+theorem contig_le (C : Crypto) (c : Core) (d : Disk) (a : Abs) (h : Rep C c d a) : c.header.contiguous ≤ a.blocks.size := by
+  by_cases hle : c.header.contiguous ≤ a.blocks.size
+  · exact hle
+  · exfalso
+    have h1 := h.contig.1 a.blocks.size (by omega)
+    rw [h.bits] at h1
+    have := h.heldLt _ h1
+    omega
 
 theorem trace_snoc (C : Crypto) (a0 a a' : Abs) (es : List Entry) (e : Entry) (ht : Trace C a0 es a)
     (hs : EntryStep C a e a') (hsm : Small a') : Trace C a0 (es ++ [e]) a' := by
@@ -99,7 +122,10 @@ theorem persist_append_pre (C : Crypto) (c c1 : Core) (d d1 : Disk) (hf : Header
     (hbits : c1.bitfield = c.bitfield.setRange a.blocks.size batch.length true)
     (hentry : EntryStep C a entry (a.step (.append batch)).1)
     (hlen : c1.header.tree.length = a.blocks.size + batch.length) (hsig : c1.header.tree.signature.length = 64)
-    (hsec : c1.header.secret = c.header.secret) (hsec2 : c1.secret = c.secret) :
+    (hsec : c1.header.secret = c.header.secret) (hsec2 : c1.secret = c.secret)
+    (hop : c1.oplog = (Oplog.appendEntry c.oplog entry).1)
+    (hdop : d1.oplog = d.oplog.write (Spec.entriesOffset + c.oplog.entriesByteLength) (frame (encEntry entry) c.oplog.currentBit false))
+    (hok : EntryOK entry) (hshape : HdrShape c1.header) (hfork : c1.tree.fork = c.tree.fork) :
     Persist C c1 d1 hf a0 (es ++ [entry]) (a.step (.append batch)).1 := by
   have hemp : batch.isEmpty = false := by cases batch with | nil => exact absurd rfl hne | cons _ _ => rfl
   have hsize : (a.step (.append batch)).1.blocks.size = a.blocks.size + batch.length := by
@@ -118,14 +144,21 @@ theorem persist_append_pre (C : Crypto) (c c1 : Core) (d d1 : Disk) (hf : Header
     dirty := by rw [hbf, hbits]; exact dirty_setRange _ _ _ _ _ hp.dirty
     hdrLen := by rw [hlen, hsize]
     hdrSig := Or.inr hsig
-    hdrSecret := by rw [hsec, hsec2]; exact hp.hdrSecret }
+    hdrSecret := by rw [hsec, hsec2]; exact hp.hdrSecret
+    oplog := by rw [hop, hdop]; exact opinv_append c.oplog d.oplog hf es entry hp.oplog hok
+    shape := hshape
+    forkU := by rw [hfork]; exact hp.forkU }
 
 theorem persist_clear_pre (C : Crypto) (c c1 : Core) (d d1 : Disk) (hf : Header) (a0 a : Abs) (es : List Entry)
     (s e : Nat) (hse : s < e) (hp : Persist C c d hf a0 es a)
     (hrep : Rep C c1 d1 (a.step (.clear s e)).1)
     (htree : d1.tree = d.tree) (hbf : d1.bitfield = d.bitfield)
     (hbits : c1.bitfield = c.bitfield.setRange s (e - s) false)
-    (hhdr : c1.header.tree = c.header.tree) (hsec : c1.header.secret = c.header.secret) (hsec2 : c1.secret = c.secret) :
+    (hhdr : c1.header.tree = c.header.tree) (hsec : c1.header.secret = c.header.secret) (hsec2 : c1.secret = c.secret)
+    (hop : c1.oplog = (Oplog.appendEntry c.oplog { bitfield := some ⟨true, s, e - s⟩ }).1)
+    (hdop : d1.oplog = d.oplog.write (Spec.entriesOffset + c.oplog.entriesByteLength)
+      (frame (encEntry { bitfield := some ⟨true, s, e - s⟩ }) c.oplog.currentBit false))
+    (hok : EntryOK { bitfield := some ⟨true, s, e - s⟩ }) (hshape : HdrShape c1.header) (hctree : c1.tree = c.tree) :
     Persist C c1 d1 hf a0 (es ++ [{ bitfield := some ⟨true, s, e - s⟩ }]) (a.step (.clear s e)).1 := by
   have hge : ¬ s ≥ e := by omega
   have hblocks : (a.step (.clear s e)).1.blocks = a.blocks := by simp [Abs.step, hge]
@@ -143,7 +176,10 @@ theorem persist_clear_pre (C : Crypto) (c c1 : Core) (d d1 : Disk) (hf : Header)
     dirty := by rw [hbf, hbits]; exact dirty_setRange _ _ _ _ _ hp.dirty
     hdrLen := by rw [hhdr, hblocks]; exact hp.hdrLen
     hdrSig := by rw [hhdr]; exact hp.hdrSig
-    hdrSecret := by rw [hsec, hsec2]; exact hp.hdrSecret }
+    hdrSecret := by rw [hsec, hsec2]; exact hp.hdrSecret
+    oplog := by rw [hop, hdop]; exact opinv_append c.oplog d.oplog hf es _ hp.oplog hok
+    shape := hshape
+    forkU := by rw [hctree]; exact hp.forkU }
 
 /-! ### the flush -/
 
@@ -164,6 +200,19 @@ theorem applyAll_bitfield_writes (b : Bitfield) (d : Disk) (ps : List Nat) :
     rw [this]
     obtain ⟨t, da, bf, o⟩ := d
     rfl
+
+theorem applyAll_last_only (d : Disk) (pre ops : List SOp) (s : Store)
+    (hpre : ∀ op ∈ pre, op.store ≠ s) (hops : ∀ op ∈ ops, op.store = s) :
+    (d.applyAll (pre ++ ops)).get s = ops.foldl (fun g op => op.onFile g) (d.get s) := by
+  rw [Journal.applyAll_get]
+  have h1 : (pre ++ ops).filter (fun op => op.store = s) = ops := by
+    rw [List.filter_append]
+    have e1 : pre.filter (fun op => op.store = s) = [] := by
+      apply List.filter_eq_nil_iff.mpr; intro op hop; simpa using hpre op hop
+    have e2 : ops.filter (fun op => op.store = s) = ops := by
+      apply List.filter_eq_self.mpr; intro op hop; simpa using hops op hop
+    rw [e1, e2, List.nil_append]
+  rw [h1]
 
 theorem firstMissing_congr (b b' : Bitfield) (c : Nat) (h : ∀ i, b'.get i = b.get i) (hc : FirstMissing b c) : FirstMissing b' c :=
   ⟨fun i hi => by rw [h]; exact hc.1 i hi, by rw [h]; exact hc.2⟩
@@ -230,7 +279,20 @@ theorem maybeFlush_persist (C : Crypto) (hC : HashWF C) (c : Core) (d : Disk) (h
         rw [g1 i]; simp [Bitfield.flush, Bitfield.get]
       hdrLen := hp.hdrLen
       hdrSig := hp.hdrSig
-      hdrSecret := hp.hdrSecret }
+      hdrSecret := hp.hdrSecret
+      oplog := by
+        have hfile : (d.applyAll (c.bitfield.flush.2 ++ c.tree.flush.2 ++ (Oplog.flush c.oplog c.header false).2)).oplog
+            = (Oplog.flush c.oplog c.header false).2.foldl (fun g op => op.onFile g) d.oplog := by
+          have := applyAll_last_only d (c.bitfield.flush.2 ++ c.tree.flush.2) (Oplog.flush c.oplog c.header false).2 .oplog
+            (fun op hop => by
+              rcases List.mem_append.mp hop with h | h
+              · rw [hj1 op h]; decide
+              · rw [hj2 op h]; decide) hj3
+          simpa [Disk.get] using this
+        rw [hfile]
+        exact opinv_flush c.oplog d.oplog hf es c.header hp.oplog (headerOK_of_shape _ hp.shape)
+      shape := hp.shape
+      forkU := by simp only [Tree.flush]; exact hp.forkU }
   · -- no flush
     refine ⟨hf, a0, es, ?_⟩
     rw [applyAll_nil]
@@ -238,8 +300,16 @@ theorem maybeFlush_persist (C : Crypto) (hC : HashWF C) (c : Core) (d : Disk) (h
 
 /-! ### every call keeps `Persist` -/
 
-theorem persist_step (C : Crypto) (hC : HashWF C) (hS : SignWF C) (c : Core) (d : Disk) (hf : Header) (a0 a : Abs)
-    (es : List Entry) (hrep : Rep C c d a) (hp : Persist C c d hf a0 es a) (op : Op) (hv : Valid a op) :
+theorem hdrShape_set (h : Header) (hs : HdrShape h) (rh sg : Bytes) (len cc : Nat) (h1 : rh.length ≤ 32) (h2 : sg.length ≤ 64)
+    (h3 : U64 len) (h4 : U64 cc) :
+    HdrShape { h with tree := { h.tree with rootHash := rh, signature := sg, length := len }, contiguous := cc } :=
+  ⟨hs.key, hs.ns, hs.mkey, hs.pk, hs.sk, hs.ud, hs.reorgs, hs.fork, h3, h1, h2, h4⟩
+
+theorem hdrShape_contig (h : Header) (hs : HdrShape h) (cc : Nat) (h4 : U64 cc) : HdrShape { h with contiguous := cc } :=
+  ⟨hs.key, hs.ns, hs.mkey, hs.pk, hs.sk, hs.ud, hs.reorgs, hs.fork, hs.len, hs.rootHash, hs.sig, h4⟩
+
+theorem persist_step (C : Crypto) (hC : HashWF C) (hS : SignWF C) (hTw : TreeWF C) (c : Core) (d : Disk) (hf : Header) (a0 a : Abs)
+    (es : List Entry) (hrep : Rep C c d a) (hp : Persist C c d hf a0 es a) (op : Op) (hv : Valid a op) (hl : Limits a op) :
     ∃ hf' a0' es', Persist C (stepC C (c, d) op).1.1 (stepC C (c, d) op).1.2 hf' a0' es' (a.step op).1 := by
   cases op with
   | get i => rw [get_refines C c d a hrep i]; exact ⟨hf, a0, es, hp⟩
@@ -253,10 +323,22 @@ theorem persist_step (C : Crypto) (hC : HashWF C) (hS : SignWF C) (c : Core) (d 
       have e2 : (a.step (.append batch)).1 = a := by simp [Abs.step, hemp]
       rw [e1, e2]; exact ⟨hf, a0, es, hp⟩
     · have hne : batch ≠ [] := by intro e; apply hemp; simp [e]
-      obtain ⟨c1, j01, entry, hstep, hrep1, ht, hb, hbits, hentry, hlen, hsig, hsec, hsec2⟩ :=
+      obtain ⟨c1, j01, entry, hstep, hrep1, ht, hb, hbits, hentry, hlen, hsig, hsec, hsec2, hop, hdop, hfork,
+          ⟨rh, sg, cc, hhdr, ⟨l, hrh⟩, hsg⟩, hentOK⟩ :=
         append_shape C hC c d a hrep batch hne hv
+      have hcc : cc = c1.header.contiguous := by rw [hhdr]
+      have hshape : HdrShape c1.header := by
+        rw [hhdr]
+        apply hdrShape_set _ hp.shape
+        · rw [hrh, hTw l]
+        · rw [hsg hS]
+        · unfold U64; have := hl.1; omega
+        · have := contig_le C c1 _ _ hrep1
+          rw [← hcc] at this
+          have hsz := hrep1.small.1
+          unfold U64; omega
       have hp1 := persist_append_pre C c c1 d (d.applyAll j01) hf a0 a es batch entry hp hrep1 hne ht hb hbits
-        (hentry hS) hlen (hsig hS) hsec hsec2
+        (hentry hS) hlen (hsig hS) hsec hsec2 hop hdop (hentOK hS hl.1 hl.2 hp.forkU) hshape hfork
       obtain ⟨hf', a0', es', hp2⟩ := maybeFlush_persist C hC c1 (d.applyAll j01) hf a0 _ _ hrep1 hp1
       rw [hstep]
       exact ⟨hf', a0', es', by rw [Journal.applyAll_append]; exact hp2⟩
@@ -266,21 +348,42 @@ theorem persist_step (C : Crypto) (hC : HashWF C) (hS : SignWF C) (c : Core) (d 
         simp [stepC, Core.clear, hge, Disk.applyAll]
       have e2 : (a.step (.clear s e)).1 = a := by simp [Abs.step, hge]
       rw [e1, e2]; exact ⟨hf, a0, es, hp⟩
-    · obtain ⟨c1, j01, hstep, hrep1, ht, hb, hbits, hhdr, hsec, hsec2⟩ := clear_shape C c d a hrep s e (by omega) hv
+    · obtain ⟨c1, j01, hstep, hrep1, ht, hb, hbits, hhdr, hsec, hsec2, hop, hdop, hctree, ⟨cc, hcc⟩⟩ :=
+        clear_shape C c d a hrep s e (by omega) hv
+      have hsn : s < a.blocks.size := hv (by omega)
+      have hU : U64 s ∧ U64 (e - s) := by
+        have := hrep.small.1
+        have he : e < 2 ^ 64 := hl
+        unfold U64; omega
+      have hshape : HdrShape c1.header := by
+        rw [hcc]
+        apply hdrShape_contig _ hp.shape
+        have hc2 : cc = c1.header.contiguous := by rw [hcc]
+        have := contig_le C c1 _ _ hrep1
+        rw [← hc2] at this
+        have hsz := hrep1.small.1
+        unfold U64; omega
       have hp1 := persist_clear_pre C c c1 d (d.applyAll j01) hf a0 a es s e (by omega) hp hrep1 ht hb hbits hhdr hsec hsec2
+        hop hdop (clearEntry_ok s (e - s) hU.1 hU.2) hshape hctree
       obtain ⟨hf', a0', es', hp2⟩ := maybeFlush_persist C hC c1 (d.applyAll j01) hf a0 _ _ hrep1 hp1
       rw [hstep]
       exact ⟨hf', a0', es', by rw [Journal.applyAll_append]; exact hp2⟩
 
 /-! ### the freshly created core -/
 
-theorem init_both (C : Crypto) (pk sk : Bytes) :
+theorem hdrShape_new (pk sk : Bytes) (hpk : pk.length = 32) (hsk : sk.length = 32) : HdrShape (Header.new pk (some sk)) := by
+  have hns : defaultNamespace.length = 32 := by decide
+  have hu : U64 0 := by unfold U64; omega
+  exact ⟨hpk, hns, hpk, hpk, fun s hs => by cases hs; exact hsk, rfl, rfl, hu, hu, Nat.zero_le _, Nat.zero_le _, hu⟩
+
+
+theorem init_both (C : Crypto) (pk sk : Bytes) (hpk : pk.length = 32) (hsk : sk.length = 32) :
     ∃ c j, Core.openCore C (some (pk, some sk)) {} = .ok (c, j) ∧ Rep C c (({} : Disk).applyAll j) {}
       ∧ Persist C c (({} : Disk).applyAll j) (Header.new pk (some sk)) {} [] {} := by
   generalize hih : Oplog.insertHeader (Header.new pk (some sk)) 0 Spec.initialBits false = ih
   have hops : ∀ op ∈ ih.2, op.store = .oplog := by rw [← hih]; exact Journal.insertHeader_store _ _ _ _
   have ho : Oplog.openLog (some (pk, some sk)) [] = .ok ⟨{ bits := ih.1 }, Header.new pk (some sk), ih.2, []⟩ := by
-    simp [Oplog.openLog, Spec.headerSize, Spec.entriesOffset, hih]
+    simp [Oplog.openLog, Oplog.readLog, Spec.headerSize, Spec.entriesOffset, hih]
   have hd1tree : (({} : Disk).applyAll ih.2).tree = File.empty :=
     tree_of_applyAll _ _ (fun op hop => by rw [hops op hop]; decide)
   have hd1data : (({} : Disk).applyAll ih.2).data = File.empty :=
@@ -332,7 +435,16 @@ theorem init_both (C : Crypto) (pk sk : Bytes) :
       dirty := by intro i hne; exfalso; apply hne; rw [hbf]
       hdrLen := rfl
       hdrSig := Or.inl rfl
-      hdrSecret := rfl }
+      hdrSecret := rfl
+      oplog := by
+        have hshape := hdrShape_new pk sk hpk hsk
+        have hfile : (({} : Disk).applyAll ih.2).oplog = ih.2.foldl (fun g op => op.onFile g) File.empty := by
+          have := applyAll_last_only ({} : Disk) [] ih.2 .oplog (fun op hop => by cases hop) hops
+          simpa [Disk.get] using this
+        rw [hfile, ← hih]
+        exact opinv_create _ (headerOK_of_shape _ hshape)
+      shape := hdrShape_new pk sk hpk hsk
+      forkU := by show (0 : Nat) < 2 ^ 64; omega }
 
 
 end HC.Persist
